@@ -773,6 +773,21 @@ def item_wirefmt(repo):
     codec = flat(block_after(w, r'fn\s+network_message_frame_codec\s*\('))
     if codec != 'let mut builder = LengthDelimitedCodec::builder(); if let Some(max_frame_size) = config.max_frame_size() { builder.max_frame_length(max_frame_size); } builder.length_field_length(4).big_endian().new_codec()':
         raise ValueError('wirefmt: network_message_frame_codec: ' + codec[:160])
+    # every framed reader/writer of the library is built from THAT codec (so the limit and the 4-byte prefix
+    # apply to both directions on both ends), and no other length-delimited codec is constructed anywhere
+    ctor = len(re.findall(r'LengthDelimitedCodec::(?:builder|new)\s*\(', w))
+    for f in ['crates/anemo/src/network/peer.rs', 'crates/anemo/src/network/request_handler.rs']:
+        t = strip_comments(read(repo, f))
+        cut = t.find('#[cfg(test)]')
+        if cut > 0:
+            t = t[:cut]
+        t = flat(t)
+        ctor += len(re.findall(r'LengthDelimitedCodec::(?:builder|new)\s*\(', t))
+        made = re.findall(r'Framed(?:Read|Write)::new\(\s*(\w+)\s*,\s*([^;]*?)\)\s*[,;]', t)
+        if len(made) != 2 or sorted(m[0] for m in made) != ['recv_stream', 'send_stream'] or any(not re.fullmatch(r'network_message_frame_codec\((?:config|&self\.config)\)', m[1].strip()) for m in made):
+            raise ValueError(f'wirefmt: {f}: framed streams are not built from network_message_frame_codec(config): {made}')
+    if ctor != 1:
+        raise ValueError(f'wirefmt: {ctor} constructions of a length-delimited codec (expected the one in network_message_frame_codec)')
     rv = flat(block_after(w, r'async\s+fn\s+read_version_frame\s*<'))
     if rv != 'let mut buf: [u8; 8] = [0; 8]; recv_stream.read_exact(&mut buf).await?; if &buf[0..=4] != ANEMO || buf[7] != 0 { bail!("Invalid Protocol Header"); } let version_be_bytes = [buf[5], buf[6]]; let version = u16::from_be_bytes(version_be_bytes); Version::new(version)':
         raise ValueError('wirefmt: read_version_frame: ' + rv[:160])
